@@ -325,7 +325,8 @@ Print Assumptions C11_reread_fixed_point_partial.
                           (values normalised) in memory: the refresh and the WRAP step change
                           nothing on an object lasio has written and read back.
      C11_refresh_not_triggered  (step 3) need_of = Some false from: the STOP value read back equals
-                          (numeq oracle) the last index value read back, no index value is NaN.
+                          (numeq oracle) what the index format prints for the last index value
+                          read back, no index value is NaN.
      C11_back_okb_of_Hfix, C11_second_data_tokens, C11_second_data_lines   (step 2) under the
                           oracle hypothesis Hfix, when every cell comes back as the same kind of
                           cell (a number not read as NaN and — outside the index column — not equal
@@ -407,7 +408,7 @@ Theorem C11_second_header :
   filter (in_class (o_mcase ro) k_step) (s_items (l_well (hs_las hs))) = [eit] ->
   s_items (l_curves (hs_las hs)) = c0 :: crest ->
   i_unit sit = i_unit c0 -> i_unit pit = i_unit c0 -> i_unit eit = i_unit c0 ->
-  forall ii, need_of numeq (mkmlas l ii) = Some false ->
+  forall ii, need_of fmtv numeq ifmt (mkmlas l ii) = Some false ->
   exists vsw2 lv2 lw2 lc2 lp2,
     write_sections fmtv fmt_diff fstr fzero numeq ver wrapo ifmt (mkmlas l ii) =
     Some (mkhs (hs_wrap hs) (hs_version hs) vsw2 lv2 lw2 lc2 lp2 (norm_las fzero l)) /\
@@ -440,7 +441,7 @@ Theorem C11_second_header_same_lines :
   filter (in_class (o_mcase ro) k_step) (s_items (l_well (hs_las hs))) = [eit] ->
   s_items (l_curves (hs_las hs)) = c0 :: crest ->
   i_unit sit = i_unit c0 -> i_unit pit = i_unit c0 -> i_unit eit = i_unit c0 ->
-  forall ii, need_of numeq (mkmlas l ii) = Some false ->
+  forall ii, need_of fmtv numeq ifmt (mkmlas l ii) = Some false ->
   Forall (stable_item fstr fzero ro KVersion false) (hs_vers_items hs) ->
   Forall (stable_item fstr fzero ro KWell true) (s_items (l_well (hs_las hs))) ->
   Forall (stable_item fstr fzero ro KCurves false) (s_items (l_curves (hs_las hs))) ->
@@ -454,15 +455,19 @@ Theorem C11_stable_itemb_ok : forall fstr fzero ro k std it,
   stable_itemb fstr fzero ro k std it = true -> stable_item fstr fzero ro k std it.
 Proof. exact stable_itemb_ok. Qed.
 
-Theorem C11_refresh_not_triggered : forall fstr numeq fhex ro hs l pit c pn T,
+(* f = the format of the index column.  Since the lossy-format repair of writer.write the
+   refresh decision compares STOP with the value f PRINTS for the last index value
+   (float(f % index_initial[-1]) != STOP.value): stop_agreesb and need_of take f and say
+   exactly that (numeq (fmtv f t) stop). *)
+Theorem C11_refresh_not_triggered : forall fmtv fstr numeq fhex ro f hs l pit c pn T,
   l_well l = mksect (reb fstr ro KWell (s_items (l_well (hs_las hs)))) (trc (o_mcase ro)) ->
   l_data l = data_result fhex numeq ro pn c T -> (0 < c)%nat ->
   filter (in_class (o_mcase ro) k_stop) (s_items (l_well (hs_las hs))) = [pit] ->
-  stop_agreesb fstr numeq fhex ro pit T = true -> index_reflb numeq fhex T = true ->
+  stop_agreesb fmtv fstr numeq fhex ro f pit T = true -> index_reflb numeq fhex T = true ->
   (* added with audit item A5: the writer model now raises (IndexError of `las.index`) when
      index_initial is set and there is no curve; the hypothesis excludes exactly that case *)
   s_items (l_curves l) <> [] ->
-  need_of numeq (mkmlas l (Some (nth 0%nat (l_data l) []))) = Some false.
+  need_of fmtv numeq f (mkmlas l (Some (nth 0%nat (l_data l) []))) = Some false.
 Proof. exact second_need. Qed.
 
 Theorem C11_back_okb_of_Hfix : forall fmtv fhex numeq ro pn o nt,
